@@ -1,9 +1,77 @@
 (* C11 -- Windowed and stateful streams equal a fold over the batch history.
-   Only statements, each closed by [exact] of a lemma from PV.Proofs.Window. *)
+   Only statements, each closed by [exact] of a lemma from PV.Proofs.Window*.
+
+   Vocabulary (PV.Model.Window, PV.Proofs.WindowSpec):
+     a program is the list of streams in registration order (ssc._dstreams); [final g ts] is the state after the
+     tick callback ran at the clock values ts; [increasing 0 ts] says they are positive and strictly increasing;
+     [rdd_of st i] is stream i's _current_rdd (RNone = Python None); [obs_of r] is what a consumer sees when it
+     collects r (None for RNone); [batches q n] are the batches of intervals 1..n of the queue q ([] once the
+     queue is exhausted); [lastn k l] the last k elements of l (all of l when it is shorter). *)
 From Coq Require Import ZArith NArith Bool String List.
-Require Import PV.Base.Val PV.Gen.Window PV.Model.Window PV.Proofs.Window.
+Require Import PV.Base.Val PV.Gen.Window PV.Model.Window PV.Proofs.Window PV.Proofs.WindowSpec.
 Import ListNotations.
 Open Scope Z_scope.
+Open Scope list_scope.
 
+(* the order of effects in the regenerated WindowedDStream._step is the one the model transcribes
+   (0 guard, 1 advance the guard time, 2 step the parent, 3 append, 4 trim, 5 counter, 6 skip test, 7 union) *)
 Theorem C11_step_order : win_step_order = [0; 1; 2; 3; 4; 5; 6; 7].
 Proof. exact win_step_order_ok. Qed.
+
+(* ---- window_spec.  The windowed stream is stream 1 on the queue source 0; [tail] is ANY list of streams
+   registered after it (consumers, consumers of consumers, other windows ...): however many of them step the
+   window in a tick, its state is the same. ---- *)
+
+(* at an interval n that is a multiple of the slide, the RDD is the in-order concatenation of the last
+   min w n batches *)
+Theorem C11_window_spec_emits : forall q w s tail, 0 < s -> forall ts,
+  increasing 0 ts -> (0 < length ts)%nat -> Z.of_nat (length ts) mod s = 0 ->
+  obs_of (rdd_of (final (Src q :: Window w s 0 :: tail) ts) 1)
+  = Some (concat (lastn (Z.to_nat w) (batches q (length ts)))).
+Proof. exact window_spec_emits. Qed.
+
+Theorem C11_window_size : forall q w n, length (lastn (Z.to_nat w) (batches q n)) = Nat.min (Z.to_nat w) n.
+Proof. exact lastn_batches_length. Qed.
+
+(* at every other interval the windowed stream's RDD is what it was after the previous interval ... *)
+Theorem C11_window_spec_unchanged : forall q w s tail, 0 < s -> forall ts t,
+  increasing 0 (ts ++ [t]) -> Z.of_nat (S (length ts)) mod s <> 0 ->
+  rdd_of (final (Src q :: Window w s 0 :: tail) (ts ++ [t])) 1
+  = rdd_of (final (Src q :: Window w s 0 :: tail) ts) 1.
+Proof. exact window_spec_unchanged. Qed.
+
+(* ... which is None before the first emission *)
+Theorem C11_window_spec_before_first : forall q w s tail, 0 < s -> forall ts,
+  increasing 0 ts -> Z.of_nat (length ts) < s ->
+  rdd_of (final (Src q :: Window w s 0 :: tail) ts) 1 = RNone.
+Proof. exact window_spec_before_first. Qed.
+
+(* the buffer holds the RDD of each of the last min w n intervals exactly once, the slide counter is n mod s
+   and the guard time is the last tick's, whatever is registered after the window *)
+Theorem C11_window_buffer : forall q w s tail, 0 < s -> forall ts ns,
+  increasing 0 ts -> nth_error (gnodes (final (Src q :: Window w s 0 :: tail) ts)) 1 = Some ns ->
+  nbuf ns = lastn (Z.to_nat w) (src_rdds q (length ts)) /\ nctr ns = Z.of_nat (length ts) mod s
+  /\ ntime ns = last ts 0.
+Proof. exact window_buffer. Qed.
+
+(* what k consumers attached to the windowed stream observe: no tick raises, and the log is, tick after tick,
+   one capture per consumer, all equal to the window's RDD of that interval *)
+Theorem C11_window_consumers : forall q w s k, 0 < s -> forall ts, increasing 0 ts ->
+  run_graph (prog_window q w s k) ts = (final (prog_window q w s k) ts, map (fun _ => None) ts) /\
+  glog (final (prog_window q w s k) ts) = window_log q w s k 0 ts.
+Proof. exact window_program_log. Qed.
+
+(* non-vacuity / sanity: the doctest of DStream.window and the history of the repaired defect *)
+Example window_doctest :
+  let q := map (fun z => [VInt z]) [1; 2; 3; 4; 5; 6] in
+  map (fun e => snd e) (glog (final (prog_window q 3 1 1) [1; 2; 3; 4; 5; 6]))
+  = map (fun l => Some (map VInt l)) [[1]; [1; 2]; [1; 2; 3]; [2; 3; 4]; [3; 4; 5]; [4; 5; 6]].
+Proof. vm_compute. reflexivity. Qed.
+Example window_slide2_two_consumers :
+  let q := map (fun z => [VInt z]) [1; 2; 3; 4; 5] in
+  map (fun e => snd e) (glog (final (prog_window q 3 2 2) [1; 2; 3; 4]))
+  = [None; None; Some [VInt 1; VInt 2]; Some [VInt 1; VInt 2]; Some [VInt 1; VInt 2]; Some [VInt 1; VInt 2];
+     Some [VInt 2; VInt 3; VInt 4]; Some [VInt 2; VInt 3; VInt 4]].
+Proof. vm_compute. reflexivity. Qed.
+Example increasing_example : increasing 0 [1; 2; 4; 7].
+Proof. cbn. repeat split; reflexivity. Qed.
